@@ -919,6 +919,8 @@ class Checker(object):
             for (bn, bv) in BAD:
                 if bn == 'list' and isinstance(specs[i], list):
                     continue
+                if bn == 'list' and re.search(r':type [^:\n]*:[^\n]*(list|tuple)', doc):
+                    continue       # a sequence is one of the documented forms of this argument (Angle, Epoch, ...)
                 trials.append(('pos%d:%s' % (i - first, bn), specs[:i] + [bv] + specs[i + 1:]))
         trials.append(('arity:+1', specs + [1.0, 2.0, 3.0, 4.0, 5.0, 6.0, 7.0, 8.0, 9.0, 10.0, 11.0, 12.0, 13.0]))
         if len(specs) > first:
